@@ -539,6 +539,11 @@ func c03CatPair(thorough bool) *c03Cat {
 		cat.add("P/"+k+"/wider-left", "join:widths", c3sel(c3star(), nil, c3join(k, wide1, t2, c3eq(c3c("w.a"), c3c("t2.a")))))
 		cat.add("P/"+k+"/narrower-right", "join:widths", c3sel(c3star(), nil, c3join(k, t1, narrow2, c3eq(c3c("t1.a"), c3c("n.a")))))
 	}
+	// names are case-insensitive: qualifiers written in another letter case than the table or its alias
+	cat.add("P/upper-qualifier/star", "names:case", c3sel(c3f("T1.*", "T2.c"), nil, t1, t2))
+	cat.add("P/upper-qualifier/columns", "names:case", c3sel(c3f("T1.A", "t2.C"), c3eq(c3c("T1.a"), c3c("T2.A")), t1, t2))
+	cat.add("P/upper-qualifier/alias-star", "names:case", c3sel(c3f("X.*"), nil, c3join("LEFT", c3refAs("t1", "x"), c3refAs("t2", "Y"), c3eq(c3c("X.a"), c3c("y.a")))))
+	cat.add("P/upper-qualifier/derived-star", "names:case", c3sel(c3f("S.*", "s.B"), nil, c3sub(c3sel(c3f("a", "b"), nil, t1), "s")))
 	cat.add("P/scalar-in-select", "nested:scalar subquery", c3sel(c3f("a", c3as(relm.Scalar{Q: c3sel(c3f("c"), c3eq(c3c("t2.a"), c3c("t1.a")), t2)}, "m")), nil, t1))
 	return cat
 }
